@@ -76,16 +76,34 @@ pub fn build_boxed(case: &RespCase) -> tiny_http::ResponseBox {
         case.status
     };
     let mut resp: tiny_http::ResponseBox = match case.ctor {
-        Ctor::New => typed_part(
-            Response::new(
-                StatusCode(st0),
-                ctor_headers,
-                PieceReader { data: if case.with_data { vec![] } else { body.clone() }, pos: 0, pieces: case.pieces.clone(), idx: 0 },
-                if case.declared { Some(case.body_len) } else { None },
-                None,
-            ),
-            case,
-        ),
+        Ctor::New => {
+            // bit6: the later half of the constructor's headers (bit7: all of them) arrives
+            // through the `additional_headers` channel, in the same order
+            let mut ctor_headers = ctor_headers;
+            let via_channel: Option<Vec<Header>> = if p & 0xc0 != 0 {
+                let k = if p & 0x80 != 0 { 0 } else { ctor_headers.len() / 2 };
+                Some(ctor_headers.split_off(k))
+            } else {
+                None
+            };
+            let rx = via_channel.map(|hs| {
+                let (tx, rx) = std::sync::mpsc::channel();
+                for h in hs {
+                    let _ = tx.send(h);
+                }
+                rx
+            });
+            typed_part(
+                Response::new(
+                    StatusCode(st0),
+                    ctor_headers,
+                    PieceReader { data: if case.with_data { vec![] } else { body.clone() }, pos: 0, pieces: case.pieces.clone(), idx: 0 },
+                    if case.declared { Some(case.body_len) } else { None },
+                    rx,
+                ),
+                case,
+            )
+        }
         Ctor::FromString => typed_part(Response::from_string(body_text(case.body_seed, case.body_len, case.utf8)).with_status_code(st0), case),
         Ctor::FromData => typed_part(Response::from_data(vcore::resp::body_bytes(case.body_seed, case.body_len)).with_status_code(st0), case),
         // (the only Clone impl: Response<io::Empty>; a clone must carry the same policy state)
